@@ -75,6 +75,12 @@ func fixDomain(v reflect.Value, loc string, r *rand.Rand) {
 			for i := 0; i < v.Len(); i++ {
 				fixDomain(v.Index(i), loc, r)
 			}
+			if loc == "query" && t.Elem().Kind() == reflect.String && r.Intn(5) == 0 {
+				// a list of ONE string that holds list separators (the pools have grown: this shape must not thin out)
+				s := reflect.MakeSlice(t, 1, 1)
+				s.Index(0).SetString([]string{"a,b", "Doe, John", ",", "red,green", "1,2,3"}[r.Intn(5)])
+				v.Set(s)
+			}
 		}
 	case reflect.Struct:
 		for i := 0; i < t.NumField(); i++ {
